@@ -69,6 +69,9 @@ class Checker:
             else:
                 if act[s] == '1' and cnt != len(kids): bad.append('orthogonal-with-inactive-substate')
         for b in sorted(set(bad)): self.v('C01', 'wf|' + b, op, {'act': act, 'sub': sub})
+        # the same answers are what C13 calls mutually consistent queries (isActive of a state, of its parent, activeSubState of its region)
+        for b in sorted(set(bad)):
+            if b != 'root-vs-activated': self.v('C13', 'consistency|' + b, op, {'act': act, 'sub': sub})
         self.stats['C01.snapshots'] += 1
 
     # ------------------------------------------------------------------
@@ -106,7 +109,7 @@ class Checker:
         pre = []; guards = []; cbs = []; enters = []; plines = []; llines = []; self.pl = []; self.rl = []; self.dumps = {}; self.cdumps = {}; self.hdumps = {}; lastq = None; self.cj = []; self.klines = []; self.ylist = []; self.vflag = None; self.bytes = None
         for t, a in op.lines:
             if t == 'c': cbs.append((a[0], a[1])); self.cj.append(('c', a[0], a[1]))
-            elif t == 'j': self.cj.append(('j', a[0], a[1]))
+            elif t == 'j' or t == 'i': self.cj.append((t, a[0], a[1]))
             elif t == 'k': self.klines.append((a[0], a[1]))
             elif t in ('A', 'X', 'K', 's', 'n', 'w'):
                 phase = 1 if (guards or any(me in LIFE for me, _ in cbs)) else 0
@@ -140,10 +143,11 @@ class Checker:
         if op.inst == 0: self.last0 = None
         st = self.state(op.inst)
         cbs = [(a[0], a[1]) for t, a in op.lines if t == 'c']
+        self.cj = [(t, a[0], a[1]) for t, a in op.lines if t in ('c', 'j', 'i')]
         self.life(op, st, cbs, None)
         if st['entered']: self.v('C03', 'life|states-still-entered-after-destruction', op, sorted(st['entered']))
         st.pop('hist', None)
-        st['entered'] = set(); st['model'] = Model(self.shape, self.seed, self.knobs, self.deviations, self.limit); st['prev_op'] = None
+        st['entered'] = set(); st['entered-j'] = set(); st['entered-i'] = set(); st['model'] = Model(self.shape, self.seed, self.knobs, self.deviations, self.limit); st['prev_op'] = None
 
     # ------------------------------------------------------------------ C10: copies
     def sig(self, op):
@@ -155,7 +159,7 @@ class Checker:
         if src is None or src['prev_op'] is None: return
         po = src['prev_op']
         if (op.live, op.act, op.res, op.sub) != (po.live, po.act, po.res, po.sub): self.v('C10', 'copy|copy-differs-from-original-right-after-copying', op, {'original': [po.act, po.res], 'copy': [op.act, op.res]})
-        st = {'model': copy.deepcopy(src['model']), 'entered': set(src['entered']), 'prev_op': op, 'constructed': True, 'plan': copy.deepcopy(src['plan'])}
+        st = {'model': copy.deepcopy(src['model']), 'entered': set(src['entered']), 'entered-j': set(src.get('entered-j', ())), 'entered-i': set(src.get('entered-i', ())), 'prev_op': op, 'constructed': True, 'plan': copy.deepcopy(src['plan'])}
         if 'hist' in src: st['hist'] = list(src['hist'])
         self.inst[op.inst] = st
         self.wf(op)
@@ -192,6 +196,23 @@ class Checker:
                 pass    # entry guards address states that are about to be entered
             else:
                 if s not in entered: self.v('C03', 'life|%s-while-not-entered' % METH.get(meth, str(meth)), op, s)
+        # the injected layers of a state are part of it: each layer's own stream alternates enter / exit and receives the rest only while entered
+        for tag in ('j', 'i'):
+            ent = st.setdefault('entered-' + tag, set())
+            for t, meth, s in self.cj:
+                if t != tag: continue
+                if meth == ENTER:
+                    if s in ent: self.v('C03', 'life|injected-layer-entered-while-entered', op, {'state': s, 'layer': 1 if tag == 'j' else 2})
+                    ent.add(s)
+                elif meth == EXIT:
+                    if s not in ent: self.v('C03', 'life|injected-layer-exited-while-not-entered', op, {'state': s, 'layer': 1 if tag == 'j' else 2})
+                    ent.discard(s)
+                elif meth != 4 and s not in ent: self.v('C03', 'life|injected-layer-%s-while-not-entered' % METH.get(meth, str(meth)), op, {'state': s, 'layer': 1 if tag == 'j' else 2})
+            if act_after is not None:
+                wantl = set(i for i in range(self.n) if act_after[i] == '1' and i in self.inj and (tag == 'j' or i % 2 == 1))
+                if wantl != ent:
+                    self.v('C03', 'life|injected-layer-entered-set-differs-from-active-set', op, {'layer': 1 if tag == 'j' else 2, 'entered-not-active': sorted(ent - wantl), 'active-not-entered': sorted(wantl - ent)})
+                    st['entered-' + tag] = set(wantl)
         if act_after is not None:
             want = set(i for i in range(self.n) if act_after[i] == '1' and self.named[i])
             if want != entered:
@@ -733,17 +754,19 @@ class Checker:
     def injected(self, op):
         if not self.inj: return
         seq = [x for x in self.cj if x[2] in self.inj and 4 <= x[1] <= 15]
-        down = (5, 7, 8, 10, 11); up = (9, 13, 15)
+        down = (5, 6, 7, 8, 10, 11); up = (9, 13, 15)
         i = 0; n = len(seq)
         while i < n:
             t, me, s = seq[i]
-            nxt = seq[i + 1] if i + 1 < n else None
-            self.stats['C05.injected-pairs'] += 1
-            if nxt is None or nxt[1] != me or nxt[2] != s or nxt[0] == t:
-                self.v('C05', 'injected|handler-not-paired-with-own-handler', op, {'at': seq[max(0, i - 1):i + 3]}); i += 1; continue
-            if me in down and t != 'j': self.v('C05', 'injected|own-handler-before-injected-on-the-way-down|' + METH[me], op, s)
-            if me in up and t != 'c': self.v('C05', 'injected|injected-handler-before-own-on-the-way-up|' + METH[me], op, s)
-            i += 2
+            layers = 3 if s % 2 == 1 else 2           # odd injected states carry two injected layers ('j' and 'i')
+            grp = seq[i:i + layers]
+            self.stats['C05.injected-groups'] += 1
+            tags = sorted(x[0] for x in grp)
+            if len(grp) < layers or any(x[1] != me or x[2] != s for x in grp) or tags != (['c', 'i', 'j'] if layers == 3 else ['c', 'j']):
+                self.v('C05', 'injected|handlers-of-one-callback-not-delivered-once-each', op, {'at': seq[max(0, i - 1):i + 4], 'layers': layers - 1}); i += 1; continue
+            if me in down and grp[-1][0] != 'c': self.v('C05', 'injected|own-handler-before-injected-on-the-way-down|' + METH[me], op, s)
+            if me in up and grp[0][0] != 'c': self.v('C05', 'injected|injected-handler-before-own-on-the-way-up|' + METH[me], op, s)
+            i += layers
 
     # ------------------------------------------------------------------ C04
     def guards_trace(self, op, kind, guards, cbs, rounds, notes, before, pre, queued_before):
